@@ -12,6 +12,7 @@ import Driver.Archive
 import Driver.Unit
 import Driver.Command
 import Driver.Junit
+import Driver.Display
 import Driver.Attempts
 import Driver.System
 namespace Driver
@@ -21,6 +22,9 @@ def dispatch (line : String) : String :=
   | "attempts" :: rest => (handleAttempts rest).getD "bad-op"
   | "junit" :: rest => (handleJunit rest).getD "bad-op"
   | "xmltext" :: rest => (handleXmlText rest).getD "bad-op"
+  | "hext" :: rest => (handleHext rest).getD "bad-op"
+  | "hlend" :: rest => (handleHlend rest).getD "bad-op"
+  | "show" :: rest => (handleShow rest).getD "bad-op"
   | "shjoin" :: rest => (handleShJoin rest).getD "bad-op"
   | "shsplit" :: rest => (handleShSplit rest).getD "bad-op"
   | "cmd" :: rest => (handleCmd rest).getD "bad-op"
